@@ -200,6 +200,12 @@ func runCheck(opts checkOpts) int {
 			fmt.Println("bipverif:", err)
 			toolErr = true
 		}
+		bn, err := p.runBenign(opts)
+		p.benign = bn
+		if err != nil {
+			fmt.Println("bipverif:", err)
+			toolErr = true
+		}
 	}
 	wall := time.Since(t0).Seconds()
 	if os.Getenv("VERIF_NO_EVIDENCE") == "" {
